@@ -533,3 +533,31 @@ Example h_implicit_skeleton_ex :
   gwfb ex_bridge = true /\ h_dom (copy ex_bridge) = false /\
   option_map a_el (label (h_to_implicit ex_bridge) 1%N) = Some (Some (s2l "B")) /\ node_ids (h_to_implicit ex_bridge) = [1; 3]%N.
 Proof. vm_compute. repeat split. Qed.
+
+(** ** [h_dom] does not depend on the adjacency order: on a networkx graph it can be evaluated on g itself *)
+From Coq Require Import Permutation.
+Lemma heavy_nbrs_copy_perm (g : gr) h : gwf g -> Permutation (heavy_nbrs (copy g) h) (heavy_nbrs g h).
+Proof.
+  intros W. apply NoDup_Permutation.
+  - unfold heavy_nbrs. apply NoDup_filter, NoDup_nbrs, (gwf_uq _ (gwf_copy g W)).
+  - unfold heavy_nbrs. apply NoDup_filter, NoDup_nbrs, (gwf_uq g W).
+  - intros w. unfold heavy_nbrs. rewrite !filter_In, !in_nbrs_adj, adj_copy by exact W.
+    unfold is_H. rewrite label_copy. reflexivity.
+Qed.
+Lemma forallb_ext' {A} (f g : A -> bool) l : (forall x, f x = g x) -> forallb f l = forallb g l.
+Proof. intros H. induction l as [|x r IH]; simpl; [reflexivity|]. rewrite H, IH. reflexivity. Qed.
+Lemma h_dom_copy (g : gr) : gwf g -> h_dom (copy g) = h_dom g.
+Proof.
+  intros W. unfold h_dom. change (gnodes (copy g)) with (gnodes g). apply forallb_ext'. intros [n a].
+  unfold h_ok_node. simpl. f_equal. f_equal.
+  pose proof (heavy_nbrs_copy_perm g n W) as P.
+  destruct (heavy_nbrs (copy g) n) as [|x [|y r]] eqn:E1; destruct (heavy_nbrs g n) as [|x' [|y' r']] eqn:E2;
+    try reflexivity; try (apply Permutation_length in P; simpl in P; discriminate).
+  apply Permutation_length_1 in P. subst. reflexivity.
+Qed.
+
+Corollary h_total_implicit_wf (g : gr) : gwfb g = true -> h_dom g = true -> total_h (h_to_implicit g) = total_h g.
+Proof.
+  intros Hw Hd. pose proof (gwfb_gwf g Hw) as W. apply h_total_implicit; [exact (gwf_nd g W)|].
+  rewrite h_dom_copy by exact W. exact Hd.
+Qed.
